@@ -58,7 +58,8 @@ fn get_comment_style(text: &str) -> CommentStyle {
 }
 
 /// Get the minimum number of leading spaces in all lines except the first.
-/// Returns None only when the text is a single line.
+/// Returns None when the text is a single line, or when all following lines are blank
+/// (possible for a block comment that is never closed).
 fn get_follow_leading(text: &str) -> Option<usize> {
     text.lines()
         .skip(1)
@@ -70,7 +71,7 @@ fn get_follow_leading(text: &str) -> Option<usize> {
 
 /// For general cases. All lines need to be indented together.
 fn align_multiline<'a>(arena: &'a Arena<'a>, text: &'a str) -> ArenaDoc<'a> {
-    let leading = get_follow_leading(text).unwrap();
+    let leading = get_follow_leading(text).unwrap_or(0);
     let mut doc = arena.nil();
     for (i, line) in text.lines().enumerate() {
         if i == 0 {
